@@ -640,6 +640,14 @@ class Sim:
         self.ctx.fault('cache_pressure')
 
 
+def inject_rng(env, rng):
+    """replace the environment's own generator (private attribute `_rng`, see DESIGN.md section 3.3).
+    If a refactoring renamed it, that is a failure of the harness, never a verdict."""
+    if not hasattr(env, '_rng'):
+        raise HarnessError('GridWorld has no attribute _rng any more: the generator seam of the harness must be updated')
+    env._rng = rng
+
+
 def finite_float(v):
     return isinstance(v, (float, np.floating)) and math.isfinite(v)
 
